@@ -126,7 +126,9 @@ def conc_scenarios(rnd, quick, n_buf, n_val, maxP):
         big = (not quick) and i % 40 == 39
         out.append({"kind": "conc", "obj": "val", "payload": "int" if i % 2 == 0 else "str",
                     "N": rnd.randint(30, 40) if big else rnd.randint(1, 12), "M": rnd.randint(40, 60) if big else rnd.randint(3, 14),
-                    "pj": rnd.choice([0, 50, 400, 3000]), "cj": rnd.choice([0, 50, 400, 3000]),
+                    # (half of the value scenarios run both sides flat out: narrow windows between the flag test and
+                    # the critical section of update() are only hit when producer and consumer are tight)
+                    "pj": 0 if i % 2 else rnd.choice([0, 50, 400, 3000]), "cj": 0 if i % 2 else rnd.choice([0, 50, 400, 3000]),
                     "ctor": "default" if i % 5 == 4 else "value", "seed": rnd.randint(1, 2 ** 30)})
     return out
 
@@ -374,7 +376,7 @@ def run(chk, replay=None):
     count_ops(chk, execs_s)
 
     # code -> spec: concurrent executions
-    conc = conc_scenarios(rnd, quick, 100 if quick else 1500, 70 if quick else 1000, 4 if quick else 8)
+    conc = conc_scenarios(rnd, quick, 100 if quick else 1500, 130 if quick else 1400, 4 if quick else 8)
     execs_c, owners_c, rej = run_and_validate(chk, exe, conc, "c12-conc", chunks=8)
     count_ops(chk, execs_c)
     ov = [sc.get("_overlaps", 0) for sc in owners_c]
